@@ -18,6 +18,12 @@ SYMBOLIC = {"NL": "\n", "CR": "\r", "NUL": "\x00", "TAB": "\t", "BSNL": "\\\n", 
 BATCH = 40
 
 
+def fail_key(f):
+    # post-processing panics are keyed by where they happen, not by the entry point that made the tree
+    entry = "post" if f["entry"].startswith("post:") else f["entry"]
+    return "panic|%s|%s" % (entry, f["detail"][:200])
+
+
 def text_of(seq, frags):
     return "".join(SYMBOLIC.get(frags[i - 1], frags[i - 1]) for i in seq)
 
@@ -157,7 +163,7 @@ def run(ck):
             src = j["srcs"][f["src"]]
             if f["kind"] == "slow":
                 slow.append((src, f)); continue
-            key = "panic|%s|%s" % (f["entry"], f["detail"][:200])
+            key = fail_key(f)
             rec = {"vector": {"src": src, "entry": f["entry"], "lang": f["lang"], "opts": f["opts"]}, "impl": f}
             if key not in seen or len(src) < len(seen[key]["vector"]["src"]):
                 seen[key] = rec
@@ -201,6 +207,6 @@ def replay(ck, rec):
         return
     r = vlib.run_harness(h, "crash", [{"srcs": [v["src"]], "linear": rec["key"].startswith("slow|"), "post": True}])[0]
     for f in (r.get("fails") or []):
-        key = "panic|%s|%s" % (f["entry"], f["detail"][:200]) if f["kind"] == "panic" else "slow|Parse|%s" % json.dumps(v["src"])[:80]
+        key = fail_key(f) if f["kind"] == "panic" else "slow|Parse|%s" % json.dumps(v["src"])[:80]
         if key == rec["key"]:
             ck.violation(key, {"vector": v, "impl": f}); return
